@@ -34,6 +34,7 @@ import (
 	"github.com/markusmobius/go-domdistiller/internal/domutil"
 	"github.com/markusmobius/go-domdistiller/internal/label"
 	"golang.org/x/net/html"
+	"golang.org/x/net/html/atom"
 )
 
 type Text struct {
@@ -110,6 +111,20 @@ func (t *Text) GenerateOutput(textOnly bool) string {
 	}
 
 	// Make sure links are absolute and IDs are gone.
+	// The generated output is parsed again as a fragment. Table parts that have
+	// no table around them (a text block taken out of a layout table) would be
+	// dropped by the parser and the texts of neighbouring cells glued together,
+	// so such a block is written with neutral elements instead.
+	if isTablePart(dom.TagName(clonedRoot)) {
+		elements := append(dom.GetElementsByTagName(clonedRoot, "*"), clonedRoot)
+		for _, element := range elements {
+			if isTablePart(dom.TagName(element)) {
+				element.Data = "div"
+				element.DataAtom = atom.Div
+			}
+		}
+	}
+
 	domutil.MakeAllLinksAbsolute(clonedRoot, t.PageURL)
 	domutil.StripAttributes(clonedRoot)
 	// TODO: if we allow images in WebText later, add StripImageElements().
@@ -125,6 +140,14 @@ func (t *Text) GenerateOutput(textOnly bool) string {
 	}
 
 	return dom.OuterHTML(clonedRoot)
+}
+
+func isTablePart(tagName string) bool {
+	switch tagName {
+	case "td", "th", "tr", "tbody", "thead", "tfoot", "caption", "colgroup", "col":
+		return true
+	}
+	return false
 }
 
 func (t *Text) AddLabel(s string) {
